@@ -167,6 +167,15 @@ def frame_sequences(chk, model, bres, R, n, stream='frame-sequences'):
                 a = [] if k else [None] * 4
                 if k:
                     assign(a)
+                    if R.random() < 0.3:
+                        # an assignment the library refuses leaves everything as it was
+                        nm_ = R.choice(['index_min', 'index_max', 'spacing'])
+                        bad_ = R.choice(['shallow', None, 'x1'])
+                        st_bad, _ = call(setattr, parts[nm_], 'value', bad_)
+                        steps.append({'refused_assignment': f'{nm_}.value = {bad_!r}', 'outcome': st_bad})
+                        if st_bad == 'ok':
+                            chk.count(f'{stream}:unexpectedly-accepted:{bad_!r}')
+                            user[nm_] = parts[nm_].value
                 hc = R.random() < 0.25
                 name = R.choice(sorted(segs))
                 xs = segs[name]
